@@ -563,6 +563,10 @@ def cmd_check(pid, tier, only=None, keep=False, jobs=None):
             "evaluations": len(results),
             "distinct_nontrivial": len(set(r["query"] for r in nontrivial)),
             "rule": "one evaluation = one bounded symbolic query (goto-cc of the harness and the real units from the current /repo tree, cbmc with unwinding assertions; or an SMT query of an encoder named in the sample); non-trivial = verdict PASS, formula has >0 variables after slicing, and every WITNESS point of the -DWITNESS twin is reachable",
+            "states": max(1, sum((r.get("stats", {}) or {}).get("steps", 0) or 0 for r in results)),
+            "transitions": max(1, sum((r.get("stats", {}) or {}).get("vccs", 0) or 0 for r in results)),
+            "traces_validated_against_impl": sum(1 for r in results for fx in r.get("failed", []) if (fx.get("replay") or {}).get("native_rc") is not None),
+            "states_transitions_meaning": "bounded symbolic model checking has no explicit state graph: states = SSA steps of the symbolic executions of all queries (cbmc 'size of program expression'), transitions = verification conditions generated from them; traces_validated_against_impl = counterexample traces replayed against the natively compiled real code in this run",
             "obligations": sum(r.get("properties_checked", 0) for r in results),
             "discharged": sum(r.get("properties_checked", 0) - len(r.get("failed", [])) for r in results if r["verdict"] in ("PASS", "FAIL", "KNOWN-FINDING")),
             "samples": results,
